@@ -72,6 +72,8 @@ def gen_knobs(rng, cfg, body_tricks=False, short_reads=False):
                                  ('slow_last', 1)]),
         'epoch': wchoice(rng, [(1000.0, 3), (0.0, 1), (1.7e9, 1)]),
         'fs_buffer': wchoice(rng, [(8192, 3), (0, 1), (3, 1)]),
+        # statement-level pre-emption inside s3transfer code (slower runs)
+        'line_preempt': rng.random() < 0.06,
     }
     if body_tricks:
         k['pre_read'] = rng.random() < 0.3
